@@ -151,6 +151,8 @@ func (p *ProjectRunner) runProcess(config *types.ProcessConfig) {
 			log.Error().Msgf("Error: %s", err.Error())
 			log.Error().Msgf("Error: process %s won't run", proc.getName())
 			proc.wontRun()
+			// keep the skipped process visible to its own dependents
+			p.addDoneProcess(proc)
 			p.onProcessSkipped(proc.procConf)
 		} else {
 			verifYieldP(proc, "runproc.afterWaitDeps")
